@@ -107,6 +107,12 @@ inputs, sample of observations, `further_ties`: the outcome of every additional 
   saved live registers into r0, fix e7e48d1); the exemption is removed and `distinct_nontrivial` is back to all cases.
 * **C29 thorough**: a test value (-3.0e10) that is not representable in 32 bits was written to an `f` variable and "read back
   differently": harness error, value replaced.
+* **C01 thorough, unfolded constant sub-tree**: `d:b = abs(neg(-1) - (-3 & v2))` was reported because the oracle typed `neg(-1)` as signed
+  (negation is signed) while Python folds it to the plain constant 1 before the DSL sees it; the unsigned-typed difference is
+  negative and outside the precondition.  The oracle now folds constant sub-trees first (as the model term already did).
+* **C23, participants still trying ethertypes**: after the generator's random stream changed, one schedule in 405 differed from the
+  model only in the ethertype field of a participant that never got past its candidates; that field is now normalised like the one
+  of aborted participants.  The same re-run surfaced a second shape of the open start / stop race (section 6).
 * **Concurrent development runs**: a thorough run of C06 reported 970 mismatches once because Coq sources were rebuilt under it
   (model evaluation failed); checks must not run while the development is being edited.  Re-run alone: clean.
 * **Atomicity assumptions are now exercised, not only stated**: where a theorem treats a critical section as one step, the tie
